@@ -26,6 +26,11 @@ def families(tier, seed):
             for pre, vec in (((True,), False), ((False,), True), ((True, False), True)):
                 out.append(dict(tag=f"{tag}/{form}{i}/after-{'-'.join('v' if p else 'n' for p in pre)}", features=dict(feats, form=form, req=i, pre=list(pre)),
                                 kind="outputs", model=model, request=req, form=form, vec=vec, pre_runs=list(pre)))
+    # the same paths in `inputs` (C08 has the full set): one column per addressed node, in declaration order
+    for tag, feats, model, inputs in gen.c08_cases(seed):
+        if tag.split("-")[0] in ("I4", "I11", "I12", "I15"):
+            out.append(dict(tag=f"{tag}/euler", features=dict(feats, solver="euler", inputs=True), kind="inputs", model=model, inputs=inputs, solver="euler",
+                            vec=True, T=1.0, dt=0.05))
     # the same paths in update_var (C07 has the full set of override scenarios)
     for tag, feats, model, ops in gen.c07_cases():
         if tag.split("-")[0] in ("U1", "U4", "U11", "U13", "U14"):
